@@ -8,4 +8,6 @@ for id in "$@"; do
   echo "== $id exit=$code"; echo "$out" | grep -E "VIOLATION|violation:|regression case|HARNESS|quick:" | cut -c1-330
 done
 git -C /repo checkout -- . ; git -C /repo status --short | head -3
+# evidence written while the change was applied does not describe the unchanged tree: restore it
+git -C /verif checkout -- evidence 2>/dev/null
 (cd /verif/harness && cargo build --release --offline >/dev/null 2>&1)
